@@ -24,6 +24,7 @@ AVOIDABLE = [
     "goexit-in-deferred",    # runtime.Goexit called from a deferred call (aborts a panic in Go)
     "panic-nil",             # panic(nil)
     "loop-branch-then-defer",  # defer on a branch inside a loop + a non-loop defer statement after that loop
+    "first-defer-panics",    # the first-registered deferred call of a frame panics (frame stays linked)
 ]
 
 PRELUDE = r'''package main
@@ -399,6 +400,16 @@ class FuncGen:
             name = "assign"
         return getattr(self, "s_" + name)(ctx, ind, p)
 
+    def safe_first(self, lit, ind):
+        """while finding first-defer-panics is open: the first defer statement of a function literal is one that
+        cannot panic (a panic raised by the first-registered deferred call leaves the frame linked)"""
+        if self.av("first-defer-panics") and self.ndefer.get(lit, 0) > 0:
+            s = self.site()
+            self.sk.append("Ds")
+            p = "\t" * ind
+            return [p + "mpush(%d, 0, 9)" % s, p + "defer dc(%d, 0, 9)" % s]
+        return []
+
     def mutate(self, p):
         return [p + "x += %d" % self.r.randint(1, 5)]
 
@@ -440,6 +451,7 @@ class FuncGen:
         body, _ = self.block(c, ind + 1, 1, 4, top=True)
         self.sk.append("]")
         out = [p + "mpush(%d, 0, 0)" % s, p + "defer func() {", p + "\tmpop(%d, 0, 0)" % s, p + "\ttr(\"cl%d\", x, res)" % s]
+        out += self.safe_first(lit, ind + 1)
         out += body
         out.append(p + "}()")
         return out, False, True
@@ -700,7 +712,7 @@ class FuncGen:
         c.toplevel = False
         body, pp = self.block(c, ind + 1, 1, 4, top=True)
         self.sk.append("]")
-        return [p + "func() {"] + body + [p + "}()"], pp, False
+        return [p + "func() {"] + self.safe_first(lit, ind + 1) + body + [p + "}()"], pp, False
 
     def s_gostmt(self, ctx, ind, p):
         self.sk.append("Go[")
@@ -713,7 +725,7 @@ class FuncGen:
         out = [p + "{", p + "\tdone%d := make(chan int)" % d, p + "\tsave%d := ingo" % d, p + "\tingo = 2", p + "\tgo func() {",
                p + "\t\tdefer close(done%d)" % d,
                p + "\t\tdefer func() {", p + "\t\t\tif e := recover(); e != nil {", p + "\t\t\t\tprintln(\"go.rec\", %d, pv(e))" % d, p + "\t\t\t}", p + "\t\t}()"]
-        out += ["\t" + l for l in body]
+        out += ["\t" + l for l in self.safe_first(lit, ind + 1) + body]
         out += [p + "\t}()", p + "\t<-done%d" % d, p + "\tingo = save%d" % d, p + "}"]
         return out, False, False
 
@@ -749,8 +761,9 @@ class FuncGen:
         head.append("\tt := T{x}")
         head.append("\t_ = t")
         head.append("\ttr(\"enter%d\", x, 0)" % self.fid)
-        if named and self.av("rangefunc-named") and "range seq" in text:
-            # keep a defer statement in the function itself so that go/ssa keeps its RunDefers (finding C04-rangefunc-named-results)
+        if (named and self.av("rangefunc-named") and "range seq" in text) or (self.av("first-defer-panics") and self.ndefer.get(0, 0) > 0):
+            # keep a defer statement in the function itself so that go/ssa keeps its RunDefers (finding
+            # C04-rangefunc-named-results); first defer statement cannot panic (finding C04-frame-stays-linked)
             s = self.site()
             head += ["\tmpush(%d, x, 0)" % s, "\tdefer dc(%d, x, 0)" % s]
             self.sk.append("Dk")
@@ -1162,6 +1175,25 @@ func p28(x int) (res int) {
 	}
 	return res + x
 }
+
+// 29: the first-registered deferred call of a callee panics: the callee's frame must be unlinked before the panic
+// unwinds into the caller (a later frame would otherwise link to the dead one)
+func g29() {
+	defer func() { panic(29) }()
+}
+func p29(x int) (res int) {
+	defer func() { e := recover(); println("p29.outer", pv(e)) }()
+	defer func() {
+		e := recover()
+		println("p29.rec", pv(e))
+		func() {
+			defer println("p29.inner.d")
+			panic(x + 1)
+		}()
+	}()
+	g29()
+	return 1
+}
 '''
 
 PROBE_UNITS = [
@@ -1179,6 +1211,7 @@ PROBE_UNITS = [
     (27, "call", "p27", 1), (28, "call", "p28", 7),
     # the next ones may end in a nil dereference under llgo (one recovered SIGSEGV per thread at most, C03's finding):
     (26, "callgo", "p26", 1), (16, "call", "p16", 1),
+    (29, "call", "p29", 1),   # may crash the llgo binary (unwinds through a dead frame)
     (6, "call", "p6", 1),     # last: may crash the llgo binary (pops a foreign argument record)
 ]
 
